@@ -4,6 +4,10 @@ import GoldilocksVerif.Gen.Scalar
 import GoldilocksVerif.Model.Inv
 import GoldilocksVerif.Model.Conv
 import GoldilocksVerif.Model.Ext
+import GoldilocksVerif.Model.Sponge
+import GoldilocksVerif.Gen.PosScalar
+import GoldilocksVerif.Gen.PosAvx2
+import GoldilocksVerif.Gen.PosAvx512
 namespace Driver
 open Gen.Scalar
 
@@ -90,6 +94,70 @@ def c09 (fn : String) (args : List Arg) : Option String :=
   | "g3al_square_oa", [.w a, .w b, .w c] => out (G3_square_al_result_a (r3 a b c))
   | _, _ => none
 
+/-- C06/C07/C08: permutations from the generated models, sponge and Merkle builders from Model/Sponge.lean -/
+def permSeq (l : List (BitVec 64)) : List (BitVec 64) :=
+  GoldilocksVerif.Region.toList (Gen.PosScalar.Pos_hash_full_result_seq GoldilocksVerif.Region.zero (GoldilocksVerif.Region.ofList l)) 12
+def permAvx (l : List (BitVec 64)) : List (BitVec 64) :=
+  GoldilocksVerif.Region.toList (Gen.PosAvx2.Pos_hash_full_result GoldilocksVerif.Region.zero (GoldilocksVerif.Region.ofList l)) 12
+def perm512 (l : List (BitVec 64)) : List (BitVec 64) :=
+  GoldilocksVerif.Region.toList (Gen.PosAvx512.Pos_hash_full_result_avx512 GoldilocksVerif.Region.zero (GoldilocksVerif.Region.ofList l)) 24
+
+def splitRows (cols : Nat) : Nat → List (BitVec 64) → List (List (BitVec 64))
+  | 0, _ => []
+  | k + 1, l => l.take cols :: splitRows cols k (l.drop cols)
+
+open GoldilocksVerif.Model in
+/-- leaves of the AVX512 builders: rows are hashed two at a time; a last odd row goes through the one-state sponge -/
+def leaves512 (lh2 : List (BitVec 64) → Nat → List (BitVec 64)) (lh1 : List (BitVec 64) → List (BitVec 64)) :
+    List (List (BitVec 64)) → List (BitVec 64)
+  | a :: b :: rest => lh2 (a ++ b) a.length ++ leaves512 lh2 lh1 rest
+  | [a] => lh1 a
+  | [] => []
+
+open GoldilocksVerif.Model in
+def batchLeaf512 (cols dim batch : Nat) (a b : List (BitVec 64)) : List (BitVec 64) :=
+  let nbatches := if cols > 0 then (cols + batch - 1) / batch else 1
+  let nlastb := cols - (nbatches - 1) * batch
+  let parts := (List.range nbatches).map (fun j =>
+    let nn := if j = nbatches - 1 then nlastb else batch
+    let pa := (a.drop (j * batch * dim)).take (nn * dim)
+    let pb := (b.drop (j * batch * dim)).take (nn * dim)
+    linearHash512 perm512 (pa ++ pb) (nn * dim))
+  let buff0 := (parts.map (fun d => d.take 4)).flatten ++ (parts.map (fun d => (d.drop 4).take 4)).flatten
+  linearHash512 perm512 buff0 (nbatches * 4)
+
+def batchLeaves512 (cols dim batch : Nat) : List (List (BitVec 64)) → List (BitVec 64)
+  | a :: b :: rest => batchLeaf512 cols dim batch a b ++ batchLeaves512 cols dim batch rest
+  | [a] => GoldilocksVerif.Model.batchLeaf (GoldilocksVerif.Model.linearHash permAvx) cols dim batch a
+  | [] => []
+
+def c0678 (fn : String) (args : List Arg) : Option String :=
+  open GoldilocksVerif.Model in
+  match fn, args with
+  | "lh_seq", [.r l] => okW (linearHash permSeq l)
+  | "lh_avx", [.r l] => okW (linearHash permAvx l)
+  | "lh_avx512", [.w size, .r l] => okW (linearHash512 perm512 l size.toNat)
+  | "treesize", [.w n] => okW [BitVec.ofNat 64 (treeNumElements n.toNat)]
+  | "mt", [.w variant, .w rows, .w cols, .w dim, .w _thr, .r l] =>
+    let rs := splitRows (cols.toNat * dim.toNat) rows.toNat l
+    if rows.toNat = 0 then okW [] else
+    match variant.toNat with
+    | 0 => okW (merkleTree (linearHash permSeq) (fun x => (permSeq (x ++ zeros 4)).take 4) rs)
+    | 1 => okW (merkleTree (linearHash permAvx) (fun x => (permAvx (x ++ zeros 4)).take 4) rs)
+    | _ =>   -- avx512 builder and the default wrapper (which selects it under __AVX512__)
+      let lv := leaves512 (linearHash512 perm512) (linearHash permAvx) rs
+      okW (lv ++ upperLevels (fun x => (permAvx (x ++ zeros 4)).take 4) rs.length rs.length lv)
+  | "mtb", [.w variant, .w rows, .w cols, .w dim, .w batch, .w _thr, .r l] =>
+    let rs := splitRows (cols.toNat * dim.toNat) rows.toNat l
+    if rows.toNat = 0 then okW [] else
+    match variant.toNat with
+    | 0 => okW (merkleTree (batchLeaf (linearHash permSeq) cols.toNat dim.toNat batch.toNat) (fun x => (permSeq (x ++ zeros 4)).take 4) rs)
+    | 1 => okW (merkleTree (batchLeaf (linearHash permAvx) cols.toNat dim.toNat batch.toNat) (fun x => (permAvx (x ++ zeros 4)).take 4) rs)
+    | _ =>
+      let lv := batchLeaves512 cols.toNat dim.toNat batch.toNat rs
+      okW (lv ++ upperLevels (fun x => (permAvx (x ++ zeros 4)).take 4) rs.length rs.length lv)
+  | _, _ => none
+
 def handDispatch (fn : String) (args : List Arg) : Option String :=
   match c01Alias fn args with
   | some s => some s
@@ -101,6 +169,9 @@ def handDispatch (fn : String) (args : List Arg) : Option String :=
   | some s => some s
   | none =>
   match c09 fn args with
+  | some s => some s
+  | none =>
+  match c0678 fn args with
   | some s => some s
   | none => none
 
